@@ -9,8 +9,9 @@ from harness import core
 from harness.gen import ir as G
 from harness.impl import docir, hops
 
-MODULE = "CddVerif.Properties.C03"
-THEOREMS = ["C03.chain_preserves", "C03.chains_commute", "C03.chain_append", "C03.broken_hop_breaks_chain"]
+MODULE = "CddVerif.Properties.C03Iface"  # imports Properties.C03 (parametric chain theorem) and Properties.C02 (single-hop round trips)
+THEOREMS = ["C03.chain_preserves", "C03.chains_commute", "C03.chain_append", "C03.broken_hop_breaks_chain",
+            "C03Iface.single", "C03Iface.chain_iface", "C03Iface.chains_commute_iface", "C03Iface.irC_dom"]
 FMTS = hops.CHAIN_FORMATS
 
 
@@ -159,7 +160,10 @@ def run(chk: core.Check) -> int:
     chk.lean(MODULE, THEOREMS)
     chk.trusted_base += [
         "the chain theorem is parametric: its premises (each hop keeps names/order/types/defaults and stays in the domain) are the per-format round trips of C01/C02; "
-        "they are evaluated on the real emit -> render -> re-read -> parse pipeline after every hop of every chain, not proved here",
+        "for class/pydantic/function/argparse the single-hop premise is proved from the C02 theorems over the emitter/parser model (C03Iface.single, chain_iface: any chain length); "
+        "the closure of the region under hops (what the docstring layer, a parameter of that model, answers for the next docstring) stays a hypothesis; "
+        "on the real code both are evaluated on the emit -> render -> re-read -> parse pipeline after every hop of every chain",
+        "the C02 model (lean/CddVerif/Model/Iface*.lean) is tied to the code by the C02 check's stage-wise correspondence, not by this check",
     ]
     rng = chk.rng
     n = 30 if chk.quick else 250
